@@ -59,5 +59,44 @@ theorem ply_roundtrip_binary_partial [BEq α] [LawfulBEq α] (c : Coding α) (cf
   obtain ⟨recs, hrecs, hread⟩ := readBody_writeBody_mesh c cfg m body hf hwf h hnotex hpoint hsize bl hcl
   exact ⟨_, hread, roundTrips_of_mesh c cfg m body hf hwf h hnotex hnd bl hcl recs hrecs⟩
 
+/-- the same with the claim-stage guard as a DECIDABLE certificate: `claimCheck cfg m` runs the claim function on the
+header the writer emits, locates every built reader by name lookup and checks everything `ClaimOK` asks for
+(`claimCheck_sound`).  For a concrete configuration and attribute set the hypothesis is discharged by `decide`. -/
+theorem ply_roundtrip_binary_checked [BEq α] [LawfulBEq α] (c : Coding α) (cfg : WriterCfg) (m : MeshVal α) (body : Bytes)
+    (hf : cfg.format ≠ .ascii) (hwf : m.WF = true) (h : writeBody c cfg m = .ok body)
+    (hnotex : ¬ (m.topo = .triangle ∧ hasTexCoord m = true))
+    (hpoint : m.topo = .point → m.indices = (List.range m.attrLen).map Int.ofNat)
+    (hsize : m.attrLen ≤ 2 ^ 31)
+    (hnd : ((headerProps (selectWriters cfg m)).map (·.1)).Nodup)
+    (hcheck : (claimCheck cfg m).isSome = true) :
+    ∃ back, readBody c defaultReader (writeHeader cfg m) body = .ok back ∧ RoundTrips c cfg m back = true := by
+  obtain ⟨bl, hbl⟩ := Option.isSome_iff_exists.mp hcheck
+  exact ply_roundtrip_binary_partial c cfg m body hf hwf h hnotex hpoint hsize hnd bl (claimCheck_sound cfg m bl hbl)
+
+/-! non-vacuity: a welded triangle mesh with positions, 8-bit colours and a user scalar, default writer, big-endian;
+and a point cloud written by a custom configuration (double positions under `px py pz`, renamed scalar) -/
+
+def exMesh : MeshVal Nat :=
+  ⟨.triangle, [2, 0, 1, 1, 0, 3],
+   [⟨3, positionAttr, [[1, 2, 3], [4, 5, 6], [7, 8, 9], [10, 11, 12]]⟩,
+    ⟨3, colorAttr, [[0, 1, 0], [1, 1, 0], [0, 0, 1], [1, 0, 1]]⟩,
+    ⟨1, nm "quality", [[5], [6], [7], [8]]⟩], none⟩
+
+example : ∃ back, readBody toyCoding defaultReader (writeHeader (defaultWriter .be) exMesh)
+      ((writeBody toyCoding (defaultWriter .be) exMesh).toOption.getD []) = .ok back ∧
+    RoundTrips toyCoding (defaultWriter .be) exMesh back = true :=
+  ply_roundtrip_binary_checked toyCoding (defaultWriter .be) exMesh _ (by decide) (by decide) (by decide) (by decide)
+    (by decide) (by decide) (by decide) (by decide)
+
+def exCloud : MeshVal Nat :=
+  ⟨.point, [0, 1], [⟨3, positionAttr, [[1, 2, 3], [4, 5, 6]]⟩, ⟨1, nm "q", [[5], [6]]⟩], none⟩
+
+def exCfg : WriterCfg := ⟨.le, [⟨nm "q", [nm "q"], .int⟩, ⟨positionAttr, [nm "px", nm "py", nm "pz"], .double⟩], false⟩
+
+example : ∃ back, readBody toyCoding defaultReader (writeHeader exCfg exCloud)
+      ((writeBody toyCoding exCfg exCloud).toOption.getD []) = .ok back ∧ RoundTrips toyCoding exCfg exCloud back = true :=
+  ply_roundtrip_binary_checked toyCoding exCfg exCloud _ (by decide) (by decide) (by decide) (by decide)
+    (by decide) (by decide) (by decide) (by decide)
+
 end C04
 end PolyVerif
